@@ -89,7 +89,8 @@ def random_case(rng: random.Random) -> dict:
         vals.append({"name": f"v{i + 1}", "deps": sorted(deps), "fld": fld, "disc": sorted(disc),
                      "style": rng.choice(["raise", "yield", "yieldpath"]), "out": rng.choice(["pass", "fail", "fail"])})
     case = {"fields": fields, "vals": vals, "variant": rng.choice(["attr", "method", "property"]),
-            "split": rng.randint(0, len(vals) - 1) if rng.random() < 0.4 else 0, "wo": ""}
+            "split": rng.randint(0, len(vals) - 1) if rng.random() < 0.4 else 0, "wo": "",
+            "depreq": len(fields) >= 2 and not fields[0]["req"] and not fields[1]["req"] and rng.random() < 0.4}
     # an InitVar dependency (declared parameter) -- kept out of field validators / yielded paths
     cand = [f["name"] for f in fields if not any(v["fld"] == f["name"] for v in vals)]
     if cand and rng.random() < 0.3:
@@ -141,8 +142,10 @@ def main() -> int:
     neg["selfrerun"] = r.violated
     r = tlc.run_tlc("MC_Validators", cfg(2, 2, dev='"aliasgate"'), workers=8, env={"EMIT": "0"}, timeout_s=1800)
     neg["aliasgate"] = r.violated
+    r = tlc.run_tlc("MC_Validators", cfg(2, 2, dev='"depreqvalid"'), workers=8, env={"EMIT": "0"}, timeout_s=1800)
+    neg["depreqvalid"] = r.violated
     rep.set("negative_checks", neg)
-    if neg["selfrerun"] != "Termination" or neg["aliasgate"] != "RunIff":
+    if neg["selfrerun"] != "Termination" or neg["aliasgate"] != "RunIff" or neg["depreqvalid"] != "RunIff":
         raise tlc.MachineryError(f"negative model checks no longer violate the invariants: {neg}")
     # 4. sampled rich cases (up to 4 fields / 4 validators, every option) by TLC simulation, replayed
     nsim = 6000 if thorough else 1200
@@ -166,7 +169,7 @@ def main() -> int:
         case = random_case(rng)
         out = valcase.run_case(case)
         distinct.add(valcase.shape_key(case))
-        execs.append({"id": i + 1, "case": {"fields": case["fields"], "vals": case["vals"]},
+        execs.append({"id": i + 1, "case": {"fields": case["fields"], "vals": case["vals"], "depreq": bool(case.get("depreq"))},
                       "kind": out["kind"], "ran": out["ran"], "errs": out["errs"], "constructed": out["constructed"],
                       "_full": case})
     wd = tlc.scratch_dir("verifval_")
